@@ -1233,7 +1233,7 @@ func c14SelfCheck(t *c14Type, base []byte) *c14Acc {
 //   A  lists over S of length 0..4: every one of the 2^(n-1) chunkings when the encoding has
 //      n <= 12 bytes (thorough: n <= 18), else all 1- and 2-cut (thorough: 3-cut) chunkings
 //   B  lists of length 1..2 over the whole alphabet with at least one long member:
-//      1- and 2-cut (thorough: 3-cut; lists containing H: 2-cut) chunkings
+//      1- and 2-cut (thorough: 3-cut; the list [H]: 2-cut; two-element lists containing H: 1-cut) chunkings
 //   C  such lists of length 3 (without H): 1-cut (thorough: 2-cut)
 //   D  thorough only: such lists of length 4 (without H): 1-cut
 //   P  pipelining: the list's encoding twice in one stream, lists over S of length <= 2
@@ -1640,7 +1640,13 @@ func c14TextChunking(quick bool) C14Group {
 			c14Lists(alphaH, n, func(l []string) {
 				for _, s := range l {
 					if len(s) == len(huge) {
-						addList(l, 2, false)
+						// the parser rebuilds a split argument by repeated string concatenation
+						// (quadratic: about 1 ms per 64 KiB parse), hence fewer cuts here
+						mc := 1
+						if len(l) == 1 {
+							mc = 2
+						}
+						addList(l, mc, false)
 						return
 					}
 				}
